@@ -197,6 +197,14 @@ def batches(rng, tier):
                     for k in range(-60, 61):
                         ops.append(f"cyc {f + ln + 1} {f} {f + ln} {start} {k}")
         yield Batch("cyclic-advance-all-wider", ops, exhaustive=True, note="boundary lengths 1..12, every start, every k in [-60,60]")
+    ops = []
+    for ln in (13, 16, 17, 31, 32, 33, 63, 64):
+        for f in ((0, 64 - ln) if ln < 64 else (0,)):
+            for off in sorted({0, 1, ln // 2, ln - 2, ln - 1}):
+                for k in sorted({-2 * ln - 1, -ln - 1, -ln, -ln + 1, -off - 1, -off, -1, 0, 1, ln - off - 1, ln - off, ln - 1, ln, ln + 1, 2 * ln, 3 * ln + 2}):
+                    ops.append(f"cyc 64 {f} {f + ln} {f + off} {k}")
+    yield Batch("cyclic-advance-long-boundaries", ops, exhaustive=True,
+                note="boundary lengths 13 .. 64 (at both ends of the container), offsets at the ends and the middle, step counts around every wrap point")
     r = rng.fork("cycbig")
     ops = []
     for _ in range(3000 if thorough else 500):
